@@ -1,6 +1,6 @@
 (* Extraction of the C13 model.  ExtrOcamlBasic only: bool, option, list,
    prod, unit, sumbool map to OCaml's; N / positive stay inductive. *)
-From RsM Require Import Lib.MachInt Model.Subs Model.SubsSpec.
+From RsM Require Import Lib.MachInt Model.Subs Model.SubsSpec Model.C13Events.
 Require Import ExtrOcamlBasic.
 Extraction Language OCaml.
 Extraction "model.ml"
@@ -9,4 +9,6 @@ Extraction "model.ml"
   is_reportable report_allowed_at report_due_at next_report_at is_expired retry_backoff_secs
   find_ctx find_sub
   inv_b ids_ok kept_ok ctx_ok ev_ok
-  graft mon_step begin_ok due_ok retry_ok expiry_ok unprimed.
+  graft mon_step begin_ok due_ok retry_ok expiry_ok unprimed
+  mon_step_e2e agree_e2e established_ok learned_ok
+  evq_init push all_events report_events qinv_b retained.
